@@ -6,7 +6,7 @@ SPEC = {
     "sub": "c07",
     "lean_modules": ["TrustVerif.Props.C07"],
     "tiers": {
-        "quick": {"cases": 1600, "extra": {"cycles": 8, "rawops": 60}},
+        "quick": {"cases": 1200, "extra": {"cycles": 8, "rawops": 60}},
         "thorough": {"cases": 24000, "extra": {"cycles": 12, "rawops": 80}},
     },
     # Compared observables: the result and full byte images after every IoInterface::write, the value of
@@ -21,8 +21,10 @@ SPEC = {
             "lists over a VariableStorage (read_inputs / write_outputs, typed/untyped, by name/by reference, dangling, "
             "size/type mismatches, wrong-kind values) and sweeps of one typed binding (each of the 17 types in turn) over "
             "own-type, drifted-integer (around the type's limits) and foreign values; 3 partial access; 4-7 compiled "
-            "CONFIGURATIONs with AT-bound globals and program variables of the 17 elementary types in %I/%Q/%M at "
-            "overlapping/adjacent addresses, 0-3 tasks + background programs, 0-3 logging drivers with changing inputs and "
+            "CONFIGURATIONs with AT-bound globals and program variables (elementary, one-dimensional arrays with arbitrary "
+            "lower bound, structures of elementary fields; the size letter of the declaration agrees with the type in 3/4 of "
+            "the declarations and is arbitrary otherwise) of the 17 elementary types in %I/%Q/%M at overlapping/adjacent "
+            "addresses, 0-3 tasks + background programs, 0-3 logging drivers with changing inputs and "
             "scripted failures, division-by-zero faults, clear_fault, idle cycles, external variable writes (also of the "
             "wrong kind), and with a debugger attached queued I/O writes and forced/released I/O.  non-trivial = raw: "
             "overlapping writes of >=3 sizes; bind: >=3 bindings or a sweep; rt: >=3 bindings, >=1 driver, >=2 programs of "
@@ -31,7 +33,7 @@ SPEC = {
     "trusted_base": [
         "Lean 4.33.0 kernel; axioms per theorem listed under 'theorems'",
         "hand-written model lean/TrustVerif/Model/C07.lean of IoInterface::{read,write,read_inputs,write_outputs}, "
-        "coerce_from_io/coerce_to_io, numeric::to_i64/to_u64, read/write_partial_access, execute_cycle/"
+        "coerce_from_io/coerce_to_io, numeric::to_i64/to_u64, read/write_partial_access, collect_io_bindings/offset_address, execute_cycle/"
         "read_cycle_inputs/write_cycle_outputs, force_io/release_io; tied by this run's correspondence",
         "Rust std: uN::from_le_bytes/to_le_bytes are modelled as sum b_i*256^i (fromLe/toLe); `as` casts between "
         "iN and uN as two's complement; f32/f64::from_bits/to_bits as the identity on bit patterns",
@@ -70,18 +72,21 @@ MANIFEST = {
                   "(c07_published); a cycle failing before the driver writes gives no driver anything and, before the collect, "
                   "leaves the images as the input phase left them (c07_fault_no_publish; c07_fault_in_publish and its counterexample "
                   "describe the one excluded case, a driver's own write failing); a faulted resource is a no-op (c07_faulted_noop); "
-                  "partial access %X/%B/%W/%D: frame, content, read-after-write, range (c07_partial_read, c07_partial_write). "
+                  "partial access %X/%B/%W/%D: frame, content, read-after-write, range (c07_partial_read, c07_partial_write); the bindings "
+                  "derived from `x AT base : T` are well typed and lay the leaves of arrays/structures out disjointly "
+                  "(c07_expand_layout). "
                   "Each run executes the model and the REAL code (IoInterface, VariableStorage, partial access, and whole compiled "
                   "CONFIGURATIONs cycled through Runtime::execute_cycle with logging IoDrivers registered by add_io_driver) on the same "
                   "generated cases and compares results, images, variables and the ordered driver/runtime event log.",
     "level_note": "Trusted: Lean kernel + propext/Quot.sound/Classical.choice; the hand-written model (validated only by the "
                   "differential run, whose generators bound what it sees); Rust std from_le_bytes/to_le_bytes/`as`/from_bits as "
-                  "stated in trusted_base.  Only tested, not proved: that the compiler turns `x AT %…: T` into the binding "
-                  "(ref x, address with T's size, T) in declaration order (compared per case through Runtime::io().bindings()), "
-                  "IoAddress::parse (addresses go through it where a text form exists), scheduling (C06).  Not modelled: "
-                  "apply_safe_state / non-default fault policies (C08), forced variables, retain saving, float conversion of a "
-                  "non-float numeric value into a REAL/LREAL binding, AT on arrays/structs/FB members (collect_io_bindings / "
-                  "offset_address: only elementary-typed bindings are generated).  Theorems about typed bindings hold under the "
+                  "stated in trusted_base.  Only tested, not proved: that the compiler turns the AT declarations of a source into the "
+                  "model's expandAt lists in registration order (compared per case through Runtime::io().bindings(); the model of "
+                  "collect_io_bindings / offset_address covers elementary types, 1-D arrays and flat structures on flat base "
+                  "addresses), IoAddress::parse (addresses go through it where a text form exists), scheduling (C06).  Not "
+                  "modelled: apply_safe_state / non-default fault policies (C08), forced variables, retain saving, float conversion "
+                  "of a non-float numeric value into a REAL/LREAL binding, AT on FB members / VAR_CONFIG / nested or "
+                  "multi-dimensional types / unions / relative field addresses / hierarchical base addresses.  Theorems about typed bindings hold under the "
                   "decidable guard Binding.wellTyped (type among the 17, size = size of type, flat address, bit <= 7) and "
                   "holdsTyped (the variable holds an in-range value of its type): outside it the code faults, which is recorded as "
                   "findings C07-time-input and C07-enum-output (c07_counterexample_time_input / _enum_output, c07_bindings_total_partial).",
